@@ -83,7 +83,14 @@ func Start(listen bool) (*Server, error) {
 		if err != nil {
 			return nil, err
 		}
-		if err = syscall.Bind(fd, &syscall.SockaddrInet4{Port: 0, Addr: [4]byte{127, 0, 0, 1}}); err != nil {
+		for i := 0; ; i++ {
+			err = syscall.Bind(fd, &syscall.SockaddrInet4{Port: 0, Addr: [4]byte{127, 0, 0, 1}})
+			if err == nil || err != syscall.EADDRINUSE || i >= 120 {
+				break
+			}
+			time.Sleep(500 * time.Millisecond) // ephemeral range momentarily exhausted
+		}
+		if err != nil {
 			syscall.Close(fd)
 			return nil, err
 		}
@@ -95,7 +102,7 @@ func Start(listen bool) (*Server, error) {
 		port := sa.(*syscall.SockaddrInet4).Port
 		return &Server{fd: fd, addr: fmt.Sprintf("127.0.0.1:%d", port), perKey: map[string]int{}, MaxHold: 5 * time.Second}, nil
 	}
-	ln, err := net.Listen("tcp", "127.0.0.1:0")
+	ln, err := listenRetry()
 	if err != nil {
 		return nil, err
 	}
@@ -351,4 +358,17 @@ func DefaultBody(e Entry, form url.Values) string {
 		return fmt.Sprintf(`{"status":"success","data":{%q:[{"type":"gauge","help":%q,"unit":""}]}}`, m, "req "+tag)
 	}
 	return `{"status":"success","data":{}}`
+}
+
+// listenRetry binds an ephemeral port; when the ephemeral range is momentarily exhausted (many short
+// connections in TIME_WAIT while several checks run at once) it waits and retries instead of failing.
+func listenRetry() (ln net.Listener, err error) {
+	for i := 0; i < 120; i++ {
+		ln, err = net.Listen("tcp", "127.0.0.1:0")
+		if err == nil || !strings.Contains(err.Error(), "address already in use") {
+			return ln, err
+		}
+		time.Sleep(500 * time.Millisecond)
+	}
+	return ln, err
 }
